@@ -143,6 +143,11 @@ def iterator_rule(ck, F, S, R):
 
 
 def run(ck, F):
+    # a value is spelled by the word the client gave: no route to a convention / linkage / logogram looks up or interns an edited copy
+    # (judged first: code that edits the word is usually outside the evaluator's language, and the violation stands on its own)
+    import words as _words_w
+    if _words_w.word_passed_whole(ck, F, 'C15'):
+        return
     ck.explanation = (
         'Every convenience operation of the interface is evaluated symbolically on an arbitrary object (virtual '
         'primitives stay symbolic) and compared with its defining term; boolean predicates over a size are decided '
